@@ -39,9 +39,24 @@ func VerifC14ThreeUnits() {
 	verifC14FixedSizes = nil
 }
 
+// fixed MTU choices for the dedicated harnesses (nil = any MTU)
+var verifC14MTUs []int
+
+// one unit longer than 64 KiB: fragment offsets do not fit 16 bits
+func VerifC14LongUnit() {
+	verifC14FixedSizes = []int{verifPick("size", []int{65540, 80010})}
+	verifC14MTUs = []int{65535, 40000, 30011}
+	VerifC14RoundTrip()
+	verifC14FixedSizes, verifC14MTUs = nil, nil
+	verifCover("C14.long.end")
+}
+
 func VerifC14RoundTrip() {
 	mtu := verifU16("mtu")
 	verifAssume(mtu >= 4)
+	if verifC14MTUs != nil {
+		mtu = uint16(verifPick("mtu", verifC14MTUs))
+	}
 	pay := &H265Payloader{AddDONL: verifCase("donl", 0, 1) == 1, SkipAggregation: verifCase("skipAggregation", 0, 1) == 1, donl: verifU16("donl0")}
 	if pay.AddDONL {
 		// with DONL the smallest packet that carries payload is a 6-byte FU (3 header + 2 DONL + 1)
